@@ -72,10 +72,11 @@ func generate(prop, family string, seed uint64, tier string) Scenario {
 
 // KernelConfig derives the kernel configuration from the scenario.
 func KernelConfig(sc Scenario, tape []uint32, replay bool, trace bool) simrt.Config {
-	// Step budgets: at least ten times the largest run observed per family on the unchanged tree
-	// (evidence key max_scheduling_points_in_run), so that a run-away loop is cut short quickly
-	// where scenarios are small and long virtual-time leaps still fit where they are not.
-	budget := int64(4_000_000) // hosts, lease, sends, naming: day-long leaps through minute tickers (1.4 M observed)
+	// Step budgets: several times the largest run observed per family on the unchanged tree
+	// (evidence key max_scheduling_points_in_run; at least six times here), so that a run-away
+	// loop is cut short quickly where scenarios are small and long virtual-time leaps still fit
+	// where they are not.
+	budget := int64(12_000_000) // hosts, lease, sends, naming: day-long leaps through minute tickers (1.9 M observed in the thorough tier)
 	switch sc.Family {
 	case "conc9", "dhcp":
 		budget = 600_000 // 46 k observed
